@@ -732,6 +732,10 @@ class Interp:
         ("core::result::Result", "Ok"): 0, ("core::result::Result", "Err"): 1,
         ("core::ops::control_flow::ControlFlow", "Continue"): 0, ("core::ops::control_flow::ControlFlow", "Break"): 1,
         ("core::cmp::Ordering", "Less"): -1, ("core::cmp::Ordering", "Equal"): 0, ("core::cmp::Ordering", "Greater"): 1,
+        ("std::collections::hash::map::Entry", "Occupied"): 0, ("std::collections::hash::map::Entry", "Vacant"): 1,
+        ("alloc::collections::btree::map::entry::Entry", "Vacant"): 0, ("alloc::collections::btree::map::entry::Entry", "Occupied"): 1,
+        ("alloc::borrow::Cow", "Borrowed"): 0, ("alloc::borrow::Cow", "Owned"): 1,
+        ("core::ops::range::Bound", "Included"): 0, ("core::ops::range::Bound", "Excluded"): 1, ("core::ops::range::Bound", "Unbounded"): 2,
     }
 
     def discr_value(self, v, facts=None):
